@@ -8,6 +8,14 @@ open UrcuVerif UrcuVerif.Src UrcuVerif.Lfht.Conc UrcuVerif.Src.LfhtL
 
 @[simp] theorem decW_encP (p : Nat) : decW (encP p) = some { ptr := p } := by rw [encP_eq_encW, decW_encW]
 
+/-- the tag tests on an untagged node pointer -/
+@[simp] theorem tagand_obj1 (p : Nat) : evalBin .tagand (.ptr (.obj p)) (.int 1) = .ok (.int 0) := by
+  simp [evalBin, Loc.tagOf]
+@[simp] theorem tagand_obj2 (p : Nat) : evalBin .tagand (.ptr (.obj p)) (.int 2) = .ok (.int 0) := by
+  simp [evalBin, Loc.tagOf]
+@[simp] theorem tagand_obj4 (p : Nat) : evalBin .tagand (.ptr (.obj p)) (.int 4) = .ok (.int 0) := by
+  simp [evalBin, Loc.tagOf]
+
 /-- abstraction of the events of the source to local labels (one label per event) -/
 def absEv : Event → LLabel
   | .ld (.field (.obj p) f) v mo =>
@@ -318,12 +326,24 @@ theorem gc_outer_body (fuel : Nat) (rev : Nat → Nat) (priv0 : Loc → Option V
           simp [hlr0, hl1, Ctl.goesOn, GcRO, hR]
         · simp [hlr0, hl1, Ctl.goesOn, GcRO]
 
+theorem gc_outer_loop (fuel : Nat) (rev : Nat → Nat) (priv0 : Loc → Option Val) (B N : Nat) (gc : GCont) (rp : Pc)
+    (hrev : RevView rev priv0) (hB : B ≠ 0) (hN : N ≠ 0) (hrp : retPc gc = some rp)
+    (env : Env) (inp : List Val) (ls : LState) (r : Except String Out)
+    (hE : iterate (exec fuel gcOuter) fuel env inp [] = r) (hI : GcO rev priv0 B N gc env inp ls) :
+    ∃ out, r = .ok out ∧ ∃ ls', lr rev ls out.events = some ls' ∧
+      (out.ctl = .fuel ∨ ∃ c, c.goesOn = false ∧ GcRO rev priv0 gc rp c out.env out.inp ls' ∧ out.ctl = c.afterLoop) := by
+  obtain ⟨out, hout, evs, ls', hev, hl, hfin⟩ :=
+    iterate_inv (lr rev) (lr_nil rev) (lr_append rev) (exec fuel gcOuter) (GcO rev priv0 B N gc)
+      (GcRO rev priv0 gc rp) (gc_outer_body fuel rev priv0 B N gc rp hrev hB hN hrp) fuel env inp ls [] hI
+  refine ⟨out, by rw [← hE, hout], ls', ?_, hfin⟩
+  rw [hev]; simpa using hl
+
 /-- **`_cds_lfht_gc_bucket(bucket, node)`**: for every budget and every oracle that delivers well-typed words passing the
 assertions of the source (`OracleOk`), the run does not fail, its events are accepted by the local automaton from
 `gHead` (`ldHeadG`, `ldNextG`*, `casGc`, again …, each with the address and the values L2 prescribes), and when the
 function returns L2's thread is at the caller's pc (`dAssert` for `_cds_lfht_del`, `rAssert` for `_cds_lfht_replace`);
 no plain store: the private view is unchanged. -/
-theorem gc_bucket_exec (fuel : Nat) (rev : Nat → Nat) (env : Env) (inp : List Val) (x : Thr) (o0 : Out) (rp : Pc)
+theorem gc_bucket_exec (fuel : Nat) (rev : Nat → Nat) (env : Env) (inp : List Val) (x : Thr) (o0 : Lfht.Conc.Out) (rp : Pc)
     (r : Except String Out) (hE : exec fuel Gen.Src.«lfht._cds_lfht_gc_bucket» env inp = r)
     (hb : env.vars "bucket" = some (.ptr (.obj x.gbkt))) (hn : env.vars "node" = some (.ptr (.obj x.gnode)))
     (hB : x.gbkt ≠ 0) (hN : x.gnode ≠ 0) (hrev : RevView rev env.priv)
@@ -338,8 +358,224 @@ theorem gc_bucket_exec (fuel : Nat) (rev : Nat → Nat) (env : Env) (inp : List 
       .seq _ (.seq _ (.seq _ (.seq _ (.seq _ (.seq _ (.seq _ (.seq _ (.seq _ (.seq _ (.seq _ (.seq _
         (.loop gcOuter)))))))))))) := rfl
   rw [hshape]
-  lexec [call_is_removed, call_is_removal_owner, call_is_bucket, pureCall, bind1]
-  trace_state
-  sorry
+  have hb' : env.vars "bucket" = some (encP x.gbkt) := by rw [hb, encP_pos hB]
+  have hn' : env.vars "node" = some (encP x.gnode) := by rw [hn, encP_pos hN]
+  lexec [call_is_removed, call_is_removal_owner, call_is_bucket, pureCall, bind1, hb', hn']
+  generalize hE : iterate (exec fuel gcOuter) fuel _ inp [] = r
+  obtain ⟨out, rfl, ls', hl, hfin⟩ := gc_outer_loop fuel rev env.priv x.gbkt x.gnode x.gcont rp hrev hB hN hrp _ _
+    { x := x, pend := .none, out := o0 } _ hE ⟨by simp [hb], by simp [hn], rfl, rfl, hpc, rfl, rfl, rfl, hO⟩
+  rcases out with ⟨ev1, env1, inp1, ctl1⟩
+  rcases hfin with hf | ⟨c, hc, hR, hctl⟩
+  · dsimp only at hf; subst hf; exact ⟨_, rfl, ls', hl, .inr (.inl rfl)⟩
+  · dsimp only at hctl hR hl
+    cases c <;> simp [Ctl.goesOn] at hc <;> simp only [GcRO] at hR <;> simp only [Ctl.afterLoop] at hctl <;> subst hctl
+    · cases ‹Option Val› <;> simp only at hR
+      exact ⟨_, rfl, ls', hl, .inr (.inr ⟨rfl, hR⟩)⟩
+    · exact ⟨_, rfl, ls', hl, .inl rfl⟩
+    · exact ⟨_, rfl, ls', hl, .inr (.inl rfl)⟩
+
+-- ----------------------------------------------------------------------------------------------------------
+-- _cds_lfht_del
+-- ----------------------------------------------------------------------------------------------------------
+/-- the part of `_cds_lfht_del` after the call of `_cds_lfht_gc_bucket` -/
+def delPost : Stmt := seqTail 19 Gen.Src.«lfht._cds_lfht_del»
+
+/-- how `_cds_lfht_del` ends: preempted, out of budget, or returned – then L2's thread is back at `idle` and the C
+return value is the `Out.ret` of L2's last step (`0` / `-ENOENT`) -/
+def DelDone (out : Out) (ls' : LState) : Prop :=
+  out.ctl = .blocked ∨ out.ctl = .fuel ∨
+    ∃ code, ls'.out = .ret code ∧ out.ctl = .ret (some (.int code)) ∧ ls'.x.pc = .idle ∧ ls'.x.op = .none ∧ ls'.pend = .none
+
+theorem del_post (fuel : Nat) (rev : Nat → Nat) (env : Env) (inp : List Val) (ls : LState) (r : Except String Out)
+    (hE : exec fuel delPost env inp = r)
+    (hn : env.vars "node" = some (.ptr (.obj ls.x.node))) (hpend : ls.pend = .none)
+    (hpc : ls.x.pc = .dAssert) (hO : OracleOk rev ls inp) :
+    ∃ o, r = .ok o ∧ ∃ ls', lr rev ls o.events = some ls' ∧ DelDone o ls' := by
+  rcases ls with ⟨x, pend, out⟩
+  dsimp only at hn hpend hpc; subst hpend; subst hE
+  cases inp with
+  | nil =>
+    lexec [delPost, seqTail, Gen.Src.«lfht._cds_lfht_del»]
+    exact ⟨_, lr_nil _ _, .inl rfl⟩
+  | cons v1 rest =>
+    obtain ⟨l, hl, hrest⟩ := hO (by simp [active, hpc])
+    simp only [obsLabel, hpc] at hl
+    cases hd : decW v1 with
+    | none => simp [hd] at hl
+    | some w1 =>
+      have hv := encW_of_decW hd; subst hv
+      simp only [decW_encW, Option.bind] at hl
+      split at hl <;> cases hl
+      rename_i hr1
+      have hs1 : lstep rev { x := x, pend := .none, out := out } (.ldNext x.node w1 0) = some (mk { x with pc := .dLd2 }) := by
+        simp [lstep, hpc]
+      have hO1 := hrest _ hs1
+      cases rest with
+      | nil =>
+        lexec [delPost, seqTail, Gen.Src.«lfht._cds_lfht_del», call_is_removed, pureCall, bind1]
+        simp [lr, lrun, absEv, hs1, DelDone]
+      | cons v2 rest =>
+        obtain ⟨l, hl, hrest⟩ := hO1 (by simp [active, mk])
+        simp only [obsLabel, mk] at hl
+        cases hd2 : decW v2 with
+        | none => simp [hd2] at hl
+        | some w2 =>
+          have hv := encW_of_decW hd2; subst hv
+          simp only [decW_encW, Option.bind] at hl
+          cases hl
+          have hs2 : lstep rev (mk { x with pc := .dLd2 }) (.ldNext x.node w2 0) = some (mk { x with v := w2, pc := .dXchg }) := by
+            simp [lstep, mk]
+          have hO2 := hrest _ hs2
+          cases rest with
+          | nil =>
+            lexec [delPost, seqTail, Gen.Src.«lfht._cds_lfht_del», call_is_removed, call_flag_removal_owner, pureCall, bind1]
+            simp [lr, lrun, absEv, hs1, hs2, DelDone]
+          | cons v3 rest =>
+            obtain ⟨l, hl, hrest⟩ := hO2 (by simp [active, mk])
+            simp only [obsLabel, mk] at hl
+            cases hd3 : decW v3 with
+            | none => simp [hd3] at hl
+            | some w3 =>
+              have hv := encW_of_decW hd3; subst hv
+              have hs3 : lstep rev (mk { x with v := w2, pc := .dXchg }) (.xchgNext x.node { w2 with own := true } w3) =
+                  some (mk { x with v := w2, pc := .idle, op := .none } (if w3.own then .ret (-ENOENT) else .ret 0)) := by
+                simp [lstep, mk]
+              by_cases ho : w3.own <;>
+              lexec [delPost, seqTail, Gen.Src.«lfht._cds_lfht_del», call_is_removed, call_flag_removal_owner,
+                call_is_removal_owner, pureCall, bind1] <;>
+              simp [lr, lrun, absEv, hs1, hs2, hs3, DelDone, ho] <;> simp [mk, ENOENT]
+
+/-- **`_cds_lfht_del(ht, size, node)`** (`node ≠ NULL`: the NULL test is L2's `dSize` branch, taken in `cds_lfht_del`) -/
+theorem del_exec (fuel : Nat) (rev : Nat → Nat) (env : Env) (inp : List Val) (x : Thr) (o0 : Lfht.Conc.Out)
+    (ht : Nat) (fp : Val)
+    (hht : env.vars "ht" = some (.ptr (.obj ht))) (hsz : env.vars "size" = some (.int x.sz))
+    (hnode : env.vars "node" = some (.ptr (.obj x.node))) (hn0 : x.node ≠ 0) (hsz1 : 1 ≤ x.sz)
+    (hfp : env.priv (.field (.obj ht) "bucket_at") = some fp) (hrev : RevView rev env.priv)
+    (hpc : x.pc = .dLd) (hO : OracleOk rev { x := x, pend := .none, out := o0 } inp) :
+    ∃ out, exec fuel Gen.Src.«lfht._cds_lfht_del» env inp = .ok out ∧
+      ∃ ls', lr rev { x := x, pend := .none, out := o0 } out.events = some ls' ∧ DelDone out ls' := by
+  have hshape : Gen.Src.«lfht._cds_lfht_del» =
+      .seq _ (.seq _ (.seq _ (.seq _ (.seq _ (.seq _ (.seq _ (.seq _ (.seq _ (.seq _ (.seq _ (.seq _ (.seq _ (.seq _
+        (.seq _ (.seq _ (.seq _ (.seq _ (.seq _ delPost)))))))))))))))))) := rfl
+  rw [hshape]
+  have hrn := hrev _ hn0
+  have hszi : (1 : Int) ≤ (x.sz : Int) := by omega
+  have hcast : ((x.sz : Int) - 1).toNat = x.sz - 1 := by omega
+  cases inp with
+  | nil =>
+    lexec [exec_call, Gen.Src.«lfht.is_bucket», Gen.Src.«lfht.is_removed», Gen.Src.«lfht.is_removal_owner», hnode]
+    exact ⟨_, lr_nil _ _, .inl rfl⟩
+  | cons v1 rest =>
+    obtain ⟨l, hl, hrest⟩ := hO (by simp [active, hpc])
+    simp only [obsLabel, hpc] at hl
+    cases hd : decW v1 with
+    | none => simp [hd] at hl
+    | some w1 =>
+      have hv := encW_of_decW hd; subst hv
+      simp only [decW_encW, Option.bind] at hl
+      split at hl <;> cases hl
+      rename_i hbk1
+      by_cases hr : w1.rem
+      · have hs1 : lstep rev { x := x, pend := .none, out := o0 } (.ldNext x.node w1 0) =
+            some (mk { x with pc := .idle, op := .none } (.ret (-ENOENT))) := by simp [lstep, hpc, hr]
+        lexec [exec_call, Gen.Src.«lfht.is_bucket», Gen.Src.«lfht.is_removed», Gen.Src.«lfht.is_removal_owner», hnode]
+        simp [lr, lrun, absEv, hs1, DelDone] <;> simp [mk, ENOENT]
+      · have hs1 : lstep rev { x := x, pend := .none, out := o0 } (.ldNext x.node w1 0) =
+            some (mk { x with pc := .dOr }) := by simp [lstep, hpc, hr]
+        have hb1 : w1.bkt = false := hbk1 (by simpa using hr)
+        have hO1 := hrest _ hs1
+        cases rest with
+        | nil =>
+          lexec [exec_call, Gen.Src.«lfht.is_bucket», Gen.Src.«lfht.is_removed», Gen.Src.«lfht.is_removal_owner»,
+            hnode]
+          simp [lr, lrun, absEv, hs1, DelDone]
+        | cons v2 rest =>
+          obtain ⟨l, hl, hrest⟩ := hO1 (by simp [active, mk])
+          simp only [obsLabel, mk] at hl
+          cases hd2 : decW v2 with
+          | none => simp [hd2] at hl
+          | some w2 =>
+            have hv := encW_of_decW hd2; subst hv
+            simp only [decW_encW, Option.bind] at hl
+            cases hl
+            obtain ⟨ls2, hls2⟩ : ∃ ls2 : LState, ls2 =
+                { x := { x with gnode := x.node, gcont := .del, pc := .gHead }, pend := .hash x.node, out := .unit } :=
+              ⟨_, rfl⟩
+            have hs2 : lstep rev (mk { x with pc := .dOr }) (.orNext x.node 1 w2) = some ls2 := by
+              rw [hls2]; simp [lstep, mk]
+            have hO2 := hrest _ hs2
+            cases rest with
+            | nil =>
+              lexec [exec_call, Gen.Src.«lfht.is_bucket», Gen.Src.«lfht.is_removed», Gen.Src.«lfht.is_removal_owner»,
+                hnode]
+              simp [lr, lrun, absEv, hs1, hs2, DelDone]
+            | cons v3 rest =>
+              obtain ⟨l, hl, hrest⟩ := hO2 (by subst hls2; simp [active])
+              rw [hls2] at hl; simp only [obsLabel] at hl
+              cases v3 with
+              | ptr _ => simp at hl
+              | int h =>
+                simp only [Option.ite_none_right_eq_some, Option.some.injEq] at hl
+                obtain ⟨hh0, rfl⟩ := hl
+                obtain ⟨ls3, hls3⟩ : ∃ ls3 : LState, ls3 =
+                    { x := { x with gnode := x.node, gcont := .del, pc := .gHead }, pend := .bkt h.toNat, out := .unit } :=
+                  ⟨_, rfl⟩
+                have hs3 : lstep rev ls2 (.hashOf (rev x.node) h.toNat) = some ls3 := by
+                  rw [hls2, hls3]; simp [lstep]
+                have hO3 := hrest _ hs3
+                cases rest with
+                | nil =>
+                  lexec [exec_call, Gen.Src.«lfht.is_bucket», Gen.Src.«lfht.is_removed», Gen.Src.«lfht.is_removal_owner»,
+                    Gen.Src.«lfht.lookup_bucket», Gen.Src.«lfht.bucket_at», hnode]
+                  simp [lr, lrun, absEv, hs1, hs2, hs3, hh0, DelDone]
+                | cons v4 rest =>
+                  obtain ⟨l, hl, hrest⟩ := hO3 (by subst hls3; simp [active])
+                  rw [hls3] at hl; simp only [obsLabel] at hl
+                  cases v4 with
+                  | int _ => simp at hl
+                  | ptr lo =>
+                    cases lo with
+                    | obj b =>
+                      simp only [Option.ite_none_right_eq_some, Option.some.injEq] at hl
+                      obtain ⟨hb0, rfl⟩ := hl
+                      obtain ⟨x4, hx4⟩ : ∃ x4 : Thr, x4 =
+                          { x with gnode := x.node, gcont := .del, pc := .gHead, gbkt := b } := ⟨_, rfl⟩
+                      have hs4 : lstep rev ls3 (.bktAt (h.toNat &&& (x.sz - 1)) b) = some (mk x4) := by
+                        rw [hls3, hx4]; simp [lstep, mk]
+                      have hO4 := hrest _ hs4
+                      lexec [exec_call, Gen.Src.«lfht.is_bucket», Gen.Src.«lfht.is_removed»,
+                        Gen.Src.«lfht.is_removal_owner», Gen.Src.«lfht.lookup_bucket», Gen.Src.«lfht.bucket_at», hnode]
+                      generalize hE : exec fuel Gen.Src.«lfht._cds_lfht_gc_bucket» _ rest = r
+                      obtain ⟨o1, rfl, ls5, hl5, hfin⟩ := gc_bucket_exec fuel rev _ rest x4 .unit .dAssert r hE
+                        (by subst hx4; simp [bindParams]) (by subst hx4; simp [bindParams, hnode])
+                        (by subst hx4; exact hb0) (by subst hx4; exact hn0) hrev (by subst hx4; rfl)
+                        (by subst hx4; rfl) hO4
+                      have hnd5 : ls5.x.node = x.node := by
+                        have := lrun_node hl5; subst hx4; simpa [mk] using this
+                      have hlr4 : ∀ evs, lr rev { x := x, pend := .none, out := o0 }
+                          (Event.ld ((Loc.obj x.node).field "next") (encW w1) 0 ::
+                            Event.rmw Prim.uor ((Loc.obj x.node).field "next") (Val.int 1) (encW w2) 3 ::
+                            Event.ext "bit_reverse_ulong" [Val.int (rev x.node)] (Val.int h) ::
+                            Event.ext "(*bucket_at)" [fp, Val.ptr (Loc.obj ht), Val.int ((h.toNat &&& (x.sz - 1) : Nat) : Int)]
+                              (Val.ptr (Loc.obj b)) :: evs) = lr rev (mk x4) evs := by
+                        intro evs
+                        simp [lr, lrun, absEv, hs1, hs2, hs3, hs4, hh0]
+                      rcases o1 with ⟨ev1, env1, inp1, ctl1⟩
+                      have hl5 : lr rev (mk x4) ev1 = some ls5 := hl5
+                      rcases hfin with hb | hf | ⟨hret, hpriv, hpend5, hpc5, hgc5, hO5⟩
+                      · dsimp only at hb; subst hb
+                        simp [hlr4, DelDone]; exact ⟨ls5, hl5⟩
+                      · dsimp only at hf; subst hf
+                        simp [hlr4, DelDone]; exact ⟨ls5, hl5⟩
+                      · dsimp only at hret hpriv hO5; subst hret
+                        dsimp only
+                        generalize hE2 : exec fuel delPost _ inp1 = r2
+                        obtain ⟨o2, rfl, ls6, hl6, hdone⟩ := del_post fuel rev _ inp1 ls5 r2 hE2
+                          (by simp [hnd5, hnode]) hpend5 hpc5 hO5
+                        rcases o2 with ⟨ev2, env2, inp2, ctl2⟩
+                        simp [hlr4, lr_append]
+                        refine ⟨ls6, ?_, by simpa [DelDone] using hdone⟩
+                        exact (congrArg (fun o => o.bind fun m => lr rev m ev2) hl5).trans hl6
+                    | _ => simp at hl
 
 end UrcuVerif.Src.LfhtR
